@@ -75,6 +75,15 @@ def run(R):
         R.oblige("correspondence: site models = real EndBlock outcome (class of panic or completion) on %d observed blocks" % total, not mism,
                  "first mismatching cases: " + json.dumps([slim(cases[i]) for i in mism[:3]])[:6000])
         report(R, viol, cases, seen)
+        # a real panic the model did not predict (or a predicted one that did not happen) is reported with its input
+        for i in mism[:50]:
+            blk = cases[i].get("block") or {}
+            end = blk.get("end") or {}
+            sig = "model-mismatch:%s:%s:%s" % (cases[i].get("kind"), end.get("site", "-"), end.get("cls", "no-panic"))
+            if sig not in seen:
+                seen[sig] = 1
+                R.violation(sig, "the real EndBlock outcome (%s) differs from the site model's prediction on %s" % (
+                    (end.get("msg") or "completed").strip()[:160], json.dumps(cases[i].get("site"))[:800]), slim(cases[i]))
         dist = json.load(open(os.path.join(out, "dist.json")))
         R.samples = [slim(cases[0]), slim(cases[len(cases) // 2]), slim(cases[-1])]
         R.coverage.update({"traces_validated_against_impl": total, "input_distribution": dist,
